@@ -1994,4 +1994,23 @@ example : utf8Decode (encodeUtf8 "aé名😀".toList) = some "aé名😀".toList
     utf8Decode [0xED, 0xA0, 0x80] = none ∧ utf8Decode [0xE9] = none ∧ utf8Decode [0xF4, 0x90, 0x80, 0x80] = none := by
   decide +kernel
 
+/-! ## what the run lists is what the run wrote (`driver.make`) -/
+
+/-- **inventory_lists_what_is_written**: whenever HTML is made, the inventory writer is handed
+exactly the subjects the page writer was handed — both recurse over `contents` skipping invisible
+objects (`_writeDocsFor` / `_generateContent`), so the run lists the objects whose pages it writes:
+nothing for a summary-pages-only run, the named subtrees for `--html-subject`. -/
+theorem inventory_lists_what_is_written (makeintersphinx : Bool) (htmlsubjects : List Str) (summary : Bool) :
+    inventorySubjects true makeintersphinx htmlsubjects summary = some (htmlSubjects htmlsubjects summary) := by
+  simp [inventorySubjects]
+
+theorem summary_only_lists_nothing (makeintersphinx : Bool) :
+    inventorySubjects true makeintersphinx [] true = some .nothing := by
+  simp [inventorySubjects, htmlSubjects]
+
+/-- only without `--make-html` does the inventory fall back to everything -/
+theorem inventory_only_lists_roots (htmlsubjects : List Str) (summary : Bool) :
+    inventorySubjects false true htmlsubjects summary = some .roots := by
+  simp [inventorySubjects]
+
 end Inventory
